@@ -10,8 +10,8 @@ import (
 
 // GenOptions steer the model generator.
 type GenOptions struct {
-	MinLeaves, MaxLeaves int     // payload leaves (marker and keys come on top)
-	Kinds                []*Kind // leaf kinds to draw from (nil = every kind except Exclude)
+	MinLeaves, MaxLeaves int             // payload leaves (marker and keys come on top)
+	Kinds                []*Kind         // leaf kinds to draw from (nil = every kind except Exclude)
 	Exclude              map[string]bool // kinds of a listed known-finding class: drawn, counted through OnExclude, replaced
 	OnExclude            func(k *Kind)
 	Migration            bool // C20: add index / uniqueIndex / unique / check / size / not null tags
@@ -508,4 +508,6 @@ func (rs *Records) Snapshot() (canon [][]string, zero [][]bool) {
 }
 
 // NewRecords wraps hand-written records (witness tests).
-func NewRecords(m *Model, vals []reflect.Value) *Records { return &Records{M: m, Vals: vals, Boundary: true} }
+func NewRecords(m *Model, vals []reflect.Value) *Records {
+	return &Records{M: m, Vals: vals, Boundary: true}
+}
